@@ -193,7 +193,7 @@ def replay(rp):
 def plan(tier, seed):
     if tier == 'quick':
         return [{'ncases': 25, 'ncuts': 24, 'exhaustive_below': 400, 'exhaustive_every': 6} for _ in range(32)]
-    return [{'ncases': 300, 'ncuts': 64, 'exhaustive_below': 4096, 'exhaustive_every': 3} for _ in range(64)]
+    return [{'ncases': 120, 'ncuts': 64, 'exhaustive_below': 4096, 'exhaustive_every': 6} for _ in range(64)]
 
 
 def run(tier, seed):
